@@ -54,9 +54,10 @@ func main() {
 			return
 		}
 		run := evid.New("C17", "exploration")
-		run.Rule = "E1q: the real scheduler state/events/dispatcher/agent storage with the event loop's serialization order chosen by the explorer. Every event sent by any goroutine (newTorrent, dispatcherComplete from the dispatcher's own goroutine, removeTorrent, preemptionTick after a 2-minute idle period, peerRemoved, shutdown) and every harness action (Download calls, seeder connecting, piece deliveries) is a choice point found by quiescence detection (testing/synctest); DFS over all orders (scenarios with bound 99) or all orders within k deviations from the default order. distinct = distinct outcome vectors per scenario."
-		run.Assume("single seeding peer attached through a fake Messages link (no TCP/handshake); announce client disabled")
+		run.Rule = "E1q: the real scheduler state/events/dispatcher/conn/agent storage with the event loop's serialization order chosen by the explorer. Every event sent by any goroutine (newTorrent, dispatcherComplete from the dispatcher's own goroutine, removeTorrent, preemptionTick after a 2-minute idle period, incomingHandshake / incomingConn / connClosed of a connection opened by a remote peer, peerRemoved, shutdown) and every harness action (Download calls, a seeder attached to the dispatcher or a remote seeder OPENING a connection through kraken's accept path at any point of the history - also before the first Download, which revives a torrent that is only on disk with localRequest=false -, piece deliveries, RemoveTorrent, idle tick, shutdown) is a choice point found by quiescence detection (testing/synctest). Start states: 0, 1 or 2 of the blob's 2 pieces already on disk (partial download left by a stopped scheduler / the blob in cache), scheduler memory empty. DFS over all orders (scenarios with bound 99) or all orders within k deviations from the default order. Oracle after stop + drain: every started Download returned exactly once (none blocked, event loop neither blocked by a second result nor panicked), success only with the exact blob bytes in the cache, otherwise one of the four documented errors. distinct = distinct outcome vectors per scenario."
+		run.Assume("one seeding peer: either attached to the dispatcher through a fake Messages link, or (start-state scenarios) a protocol-speaking peer on a net.Pipe that goes through Handshaker.Accept, incomingHandshakeEvent, establishIncomingHandshake (torrentArchive.Stat) and incomingConnEvent; no TCP, no tracker (announce client disabled)")
 		run.Assume("virtual time (synctest bubble); idle timeouts fire only through the explicit 'idle 2min + tick' action")
+		run.Assume("start states are produced through the real archive (CreateTorrent + WritePiece of the first k pieces) before the scheduler is built: the disk image a stopped or reloaded scheduler leaves at a quiescent point; blob of 2 pieces; pieces are delivered in index order")
 		maxDur := 50
 		if run.Thorough() {
 			maxDur = 300
